@@ -1597,4 +1597,439 @@ theorem minorGrid_eq_restrict' (ref : Grid) (cg : CoarseGrid) (s e : Int) (htl :
   rw [sel_of_range _ ref.pts 0, sel_of_range _ ref.dt 0, sel_of_range _ ref.Dt 0, sel_of_range _ ref.df 0,
     htl.dtLen, htl.DtLen, htl.dfLen, htl.idx]
 
+/-! ## Part N: scalars are constant inside a coarse step; the weights written by the builders -/
+
+section scalars
+variable {ref : Grid} {cg : CoarseGrid}
+
+theorem owner_mem_lt (hwf : cg.WellFormed ref.dt) (i : Nat) (hi : i ∈ cg.owner) : i < cg.grid.T := by
+  obtain ⟨k, hk, rfl⟩ := List.getElem_of_mem hi
+  have := owner_lt hwf k hk
+  rwa [List.getD_eq_getElem?_getD, List.getElem?_eq_getElem hk, Option.getD_some] at this
+
+theorem map_const_of_length {α β γ : Type} (L1 : List α) (L2 : List β) (c : γ) (h : L1.length = L2.length) :
+    L1.map (fun _ => c) = L2.map (fun _ => c) := by
+  induction L1 generalizing L2 with
+  | nil => cases L2 with
+    | nil => rfl
+    | cons _ _ => simp at h
+  | cons a L1 ih => cases L2 with
+    | nil => simp at h
+    | cons b L2 => simp [ih L2 (by simpa using h)]
+
+theorem baseVector_scalar_spread (hwf : cg.WellFormed ref.dt) (r : Rat) (prices : Prices) (d : Option Rat) :
+    baseVector (.scalar r) (minorGrid ref cg) prices d
+      = (baseVector (.scalar r) cg.grid prices d).map (spreadO cg.owner) := by
+  rw [baseVector_scalar, baseVector_scalar]
+  show Except.ok _ = Except.ok _
+  congr 1
+  unfold spreadO
+  have h1 : (minorGrid ref cg).pts.map (fun _ => some r) = cg.owner.map (fun _ => some r) :=
+    map_const_of_length _ _ _ (by have := @minorGrid_T ref cg; simpa [Grid.T] using this)
+  rw [h1]
+  apply List.map_congr_left
+  intro i hi
+  have hT := owner_mem_lt hwf i hi
+  rw [getD_map' cg.grid.pts (fun _ => some r) i hT 0 none]
+
+end scalars
+
+theorem mem_cellMapFrom {β : Type} (f : Nat → Nat → β) (cells : List (List Nat)) (m : β) (h : m ∈ cellMapFrom f 0 cells) :
+    ∃ i t, i < cells.length ∧ t ∈ cells.getD i [] ∧ m = f i t := by
+  rw [cellMapFrom_eq_ot] at h
+  obtain ⟨q, hq, rfl⟩ := List.mem_map.mp h
+  obtain ⟨_, h2, h3⟩ := mem_ot 0 cells q hq
+  exact ⟨q.1, q.2, by omega, by simpa using h3, rfl⟩
+
+theorem sum_filter_map {α : Type} (L : List α) (q : α → Bool) (h : α → Rat) :
+    ((L.filter q).map h).sum = (L.map fun e => if q e then h e else 0).sum := by
+  induction L with
+  | nil => rfl
+  | cons a L ih =>
+    rw [List.filter_cons]
+    cases hq : q a
+    · simp only [Bool.false_eq_true, if_false, List.map_cons, List.sum_cons, hq, ih]; grind
+    · simp only [if_true, List.map_cons, List.sum_cons, hq, ih]
+
+/-- the factors written for coarse variable `off + i` by an extended block add up to the factor of the block -/
+theorem block_factor_sum {cells : List (List Nat)} {dtF dtC : List Rat} (h : CellsOK cells dtF dtC)
+    (asset node varName : String) (f : Rat) (off v : Nat) :
+    (((cellMapFrom (fun i t => genRow asset node varName (dtF.getD t 0 / dtC.getD i 0 * f) (off + i) t) 0 cells).filter
+        (fun m => m.var == v)).map (·.factor)).sum
+      = if off ≤ v ∧ v < off + cells.length then f else 0 := by
+  rw [sum_filter_map, cellMapFrom_eq_ot, List.map_map]
+  have e : (ot 0 cells).map ((fun m : MapRow => if (m.var == v) = true then m.factor else 0) ∘
+        fun p => genRow asset node varName (dtF.getD p.2 0 / dtC.getD p.1 0 * f) (off + p.1) p.2)
+      = (ot 0 cells).map (fun p => if p.1 = v - off then (if off ≤ v then dtF.getD p.2 0 / dtC.getD p.1 0 * f else 0) else 0) := by
+    apply List.map_congr_left
+    intro q _
+    simp only [Function.comp_def, genRow, beq_iff_eq]
+    by_cases h1 : off + q.1 = v
+    · have h2 : q.1 = v - off := by omega
+      have h3 : off ≤ v := by omega
+      rw [if_pos h1, if_pos h2, if_pos h3]
+    · by_cases h3 : off ≤ v
+      · have h2 : ¬ q.1 = v - off := by omega
+        rw [if_neg h1, if_neg h2]
+      · rw [if_neg h1, if_neg h3]; simp
+  rw [e, sum_ot_single (fun i t => if off ≤ v then dtF.getD t 0 / dtC.getD i 0 * f else 0) (v - off) 0 cells]
+  by_cases hr : off ≤ v ∧ v < off + cells.length
+  · have hi : v - off < cells.length := by omega
+    rw [if_pos hr, if_pos ⟨by omega, by omega⟩, Nat.sub_zero]
+    simp only [hr.1, if_true]
+    have hD := h.dtC_pos _ hi
+    have e2 : ((cells.getD (v - off) []).map fun t => dtF.getD t 0 / dtC.getD (v - off) 0 * f)
+        = (((cells.getD (v - off) []).map (dtF.getD · 0)).map (· / dtC.getD (v - off) 0)).map (· * f) := by
+      rw [List.map_map, List.map_map]; rfl
+    rw [e2, sum_map_mul_right, sum_map_div, ← h.sum _ hi, Rat.div_def,
+      Rat.mul_inv_cancel _ (fun e0 => by rw [e0] at hD; exact absurd hD (by decide +kernel))]
+    grind
+  · rw [if_neg hr]
+    by_cases h3 : off ≤ v
+    · have : ¬ (0 ≤ v - off ∧ v - off < 0 + cells.length) := by omega
+      rw [if_neg this]
+    · split
+      · apply sum_map_eq_zero
+        intro t _
+        rfl
+      · rfl
+
+/-! ## Part O: the mappings the coarse builders return -/
+
+section mappings
+variable {ref : Grid} {cg : CoarseGrid}
+
+/-- row written for coarse step `i`, minor step `t` by a block with factor `f` whose variables start at `off` -/
+def extRow (ref : Grid) (cg : CoarseGrid) (asset node varName : String) (f : Rat) (off : Nat) (i t : Nat) : MapRow :=
+  genRow asset node varName (ref.dt.getD t 0 / cg.grid.dt.getD i 0 * f) (off + i) t
+
+theorem extend_genBlock_cg (hwf : cg.WellFormed ref.dt) (asset node varName : String) (f : Rat) (off : Nat) :
+    (genBlock asset node varName f off cg.grid).flatMap (extendRow cg ref.dt)
+      = cellMapFrom (extRow ref cg asset node varName f off) 0 cg.minor :=
+  extend_genBlock _ _ _ _ _ _ _ hwf.nodup (by rw [hwf.minorLen, hwf.ok.1])
+
+/-- the mapping of a coarse simple contract: one extended block `disp`, or two `disp_in | disp_out` -/
+theorem contract_mapping_form (hwf : cg.WellFormed ref.dt) {p : ContractP} {prices : Prices} {fullT : Nat} {Pc : AssetProblem}
+    (hc : buildCoarseSimpleContract p cg ref.dt prices fullT = .ok Pc) :
+    ∃ node, Pc.mapping = cellMapFrom (extRow ref cg p.name node "disp" 1 0) 0 cg.minor ∨
+      Pc.mapping = cellMapFrom (extRow ref cg p.name node "disp_in" 1 0) 0 cg.minor
+        ++ cellMapFrom (extRow ref cg p.name node "disp_out" 1 cg.grid.T) 0 cg.minor := by
+  obtain ⟨_, price, a, _, ha, rfl⟩ := buildCoarseSimpleContract_ok hc
+  obtain ⟨dC, _, _, _, _, _, _, _, _, _, rfl⟩ := simpleCore_ok ha
+  refine ⟨dC.node, ?_⟩
+  split
+  · left
+    show (dispBlock p.name dC.node "disp" 0 cg.grid).flatMap (extendRow cg ref.dt) = _
+    rw [dispBlock_eq, extend_genBlock_cg hwf]
+  · right
+    show (dispBlock p.name dC.node "disp_in" 0 cg.grid ++ dispBlock p.name dC.node "disp_out" cg.grid.T cg.grid).flatMap
+      (extendRow cg ref.dt) = _
+    rw [List.flatMap_append, dispBlock_eq, dispBlock_eq, extend_genBlock_cg hwf, extend_genBlock_cg hwf]
+
+/-- the mapping of a coarse transport: the block of the first node (factor −1) and of the second (efficiency) -/
+theorem transport_mapping_form (hwf : cg.WellFormed ref.dt) {p : TransportP} {prices : Prices} {fullT : Nat} {Pc : AssetProblem}
+    (hc : buildCoarseTransport p cg ref.dt prices fullT = .ok Pc) :
+    ∃ n0 n1, p.nodes = [n0, n1] ∧
+      Pc.mapping = cellMapFrom (extRow ref cg p.name n0 "disp" (-1) 0) 0 cg.minor
+        ++ cellMapFrom (extRow ref cg p.name n1 "disp" p.efficiency 0) 0 cg.minor := by
+  obtain ⟨n0, n1, cts, hn, _, _, _, _, rfl⟩ := buildCoarseTransport_ok hc
+  refine ⟨n0, n1, hn, ?_⟩
+  show (transportBlock p.name n0 (-1) cg.grid ++ transportBlock p.name n1 p.efficiency cg.grid).flatMap
+    (extendRow cg ref.dt) = _
+  rw [List.flatMap_append, transportBlock_eq, transportBlock_eq, extend_genBlock_cg hwf, extend_genBlock_cg hwf]
+
+theorem extBlock_factor_sum (hwf : cg.WellFormed ref.dt) (asset node varName : String) (f : Rat) (off v : Nat) :
+    (((cellMapFrom (extRow ref cg asset node varName f off) 0 cg.minor).filter (fun m => m.var == v)).map (·.factor)).sum
+      = if off ≤ v ∧ v < off + cg.grid.T then f else 0 := by
+  rw [← hwf.minorLen]
+  exact block_factor_sum (cellsOK_of_wf hwf) asset node varName f off v
+
+theorem mem_extBlock (asset node varName : String) (f : Rat) (off : Nat) (m : MapRow)
+    (h : m ∈ cellMapFrom (extRow ref cg asset node varName f off) 0 cg.minor) :
+    ∃ i, i < cg.minor.length ∧ m.step ∈ cg.minor.getD i [] ∧ m.var = off + i ∧
+      m.factor = ref.dt.getD m.step 0 / cg.grid.dt.getD i 0 * f := by
+  obtain ⟨i, t, hi, ht, rfl⟩ := mem_cellMapFrom _ _ _ h
+  exact ⟨i, hi, ht, rfl, rfl⟩
+
+theorem filter_sum_append (M1 M2 : List MapRow) (q : MapRow → Bool) :
+    (((M1 ++ M2).filter q).map (·.factor)).sum = ((M1.filter q).map (·.factor)).sum + ((M2.filter q).map (·.factor)).sum := by
+  rw [List.filter_append, List.map_append, List.sum_append]
+
+/-- rate of a row: volume on its fine step over the step's length -/
+theorem rate_of_row (hwf : cg.WellFormed ref.dt) (m : MapRow) (i : Nat) (hi : i < cg.minor.length)
+    (hs : m.step ∈ cg.minor.getD i []) (f : Rat) (hf : m.factor = ref.dt.getD m.step 0 / cg.grid.dt.getD i 0 * f) (x : Vec) :
+    m.contrib x / ref.dt.getD m.step 0 = x m.var * f / cg.grid.dt.getD i 0 := by
+  have hpos := hwf.dtPos _ (getD_mem_of_lt cg.minor i hi []) _ hs
+  have hne : ref.dt.getD m.step 0 ≠ 0 := fun e => by rw [e] at hpos; exact absurd hpos (by decide +kernel)
+  have hc := Rat.mul_inv_cancel _ hne
+  unfold MapRow.contrib
+  rw [hf]
+  simp only [Rat.div_def]
+  calc x m.var * (ref.dt.getD m.step 0 * (cg.grid.dt.getD i 0)⁻¹ * f) * (ref.dt.getD m.step 0)⁻¹
+      = x m.var * f * (cg.grid.dt.getD i 0)⁻¹ * (ref.dt.getD m.step 0 * (ref.dt.getD m.step 0)⁻¹) := by grind
+    _ = x m.var * f * (cg.grid.dt.getD i 0)⁻¹ := by rw [hc]; grind
+
+end mappings
+
+/-! ## Part P: the `freq=None` builders are the cores applied to the sampled series -/
+
+theorem buildSimpleContract_eq_core (p : ContractP) (g : Grid) (prices : Prices) (fullT : Nat) :
+    buildSimpleContract p g prices fullT
+      = (if scalarIllPosed p.minCap p.maxCap then throw .illPosed
+         else priceVector p.price g prices fullT >>= simpleCore p g prices) := by
+  unfold buildSimpleContract simpleCore
+  by_cases h : scalarIllPosed p.minCap p.maxCap = true
+  · rw [if_pos h, if_pos h]; rfl
+  · rw [if_neg h, if_neg h]; rfl
+
+theorem buildTransport_eq_core (p : TransportP) (g : Grid) (prices : Prices) (fullT : Nat) (n0 n1 : String)
+    (hn : p.nodes = [n0, n1]) :
+    buildTransport p g prices fullT
+      = (if p.maxCap < p.minCap then throw .assertion
+         else if ¬ (0 < p.efficiency) then throw .assertion
+         else transportCosts p.costsKey g prices fullT >>= transportCore p n0 n1 g) := by
+  unfold buildTransport transportCore
+  rw [hn]
+  by_cases h1 : p.maxCap < p.minCap
+  · simp only [h1, if_true]; rfl
+  · by_cases h2 : ¬ (0 < p.efficiency)
+    · simp only [h1, h2, if_false]; rfl
+    · simp only [h1, h2, if_false]
+
+/-! ## Part Q: the discount factor of a coarse step is that of one of its minor steps -/
+
+theorem filterMap_getD_of_isSome {α : Type} (L : List α) (f : α → Option Rat) (h : ∀ a, a ∈ L → (f a).isSome = true)
+    (i : Nat) (hi : i < L.length) : (L.filterMap f).getD i 0 = (f (L.getD i (L[i]'hi))).getD 0 := by
+  induction L generalizing i with
+  | nil => simp at hi
+  | cons a L ih =>
+    have ha := h a List.mem_cons_self
+    cases hf : f a with
+    | none => rw [hf] at ha; cases ha
+    | some b =>
+      rw [List.filterMap_cons, hf]
+      cases i with
+      | zero => simp [hf]
+      | succ i =>
+        have hi' : i < L.length := by simpa using hi
+        have := ih (fun a' ha' => h a' (List.mem_cons_of_mem _ ha')) i hi'
+        simp only [List.getD_cons_succ] at this ⊢
+        rw [this]
+        simp [List.getD_eq_getElem?_getD, List.getElem?_eq_getElem hi']
+
+/-- on a top-level grid the discount factor of coarse step `i` is the reference's factor at one of its minor steps -/
+theorem coarsen_df (ref : Grid) (cuts : List Int) (cg : CoarseGrid) (htl : ref.TopLevel)
+    (h : ref.coarsen cuts = .ok cg) (i : Nat) (hi : i < cg.minor.length) :
+    ∃ t, t ∈ cg.minor.getD i [] ∧ cg.grid.df.getD i 0 = ref.df.getD t 0 := by
+  unfold Grid.coarsen at h
+  cases hcells : coarseCells ref cuts with
+  | error e => rw [hcells] at h; cases h
+  | ok cells =>
+    rw [hcells] at h
+    cases h
+    obtain ⟨_, _, hall⟩ := coarseCells_spec ref cuts cells hcells
+    have hi' : i < cells.length := by simpa using hi
+    have hcell : ∀ c, c ∈ cells → c.I ∈ c.minor ∧ c.df = some (ref.df.getD c.I 0) := by
+      intro c hcm
+      obtain ⟨hne, ab, _, _, hcc⟩ := hall c hcm
+      obtain ⟨hmin, _, _, _, _, _, hdf⟩ := coarseCell_ok ref ab.1 ab.2 c hcc
+      have hfirst := (coarseCell_first ref ab.1 ab.2 c hcc htl.idx htl.DtLen).1
+      have hI : c.I ∈ c.minor := by
+        cases hm : c.minor with
+        | nil => exact absurd hm hne
+        | cons j js => rw [hm] at hfirst; simp at hfirst; rw [← hfirst]; simp
+      have hlt : c.I < ref.pts.length := by
+        rw [hmin, htl.idx] at hI
+        exact List.mem_range.mp ((sel_sublist _ _).subset hI)
+      refine ⟨hI, ?_⟩
+      unfold dfAt at hdf
+      split at hdf
+      · rename_i hemp
+        have : ref.df.length = 0 := by simpa using hemp
+        rw [htl.dfLen] at this
+        omega
+      · have hlt' : c.I < ref.df.length := by rw [htl.dfLen]; exact hlt
+        rw [List.getElem?_eq_getElem hlt'] at hdf
+        simp only [Option.map_some, Option.some.injEq] at hdf
+        rw [← hdf, List.getD_eq_getElem?_getD, List.getElem?_eq_getElem hlt', Option.getD_some]
+    have hc := hcell _ (List.getElem_mem hi')
+    refine ⟨(cells[i]).I, ?_, ?_⟩
+    · show (cells[i]).I ∈ (cells.map (·.minor)).getD i []
+      rw [List.getD_eq_getElem?_getD, List.getElem?_map, List.getElem?_eq_getElem hi']
+      exact hc.1
+    · show (cells.filterMap (·.df)).getD i 0 = _
+      rw [filterMap_getD_of_isSome cells (·.df) (fun c hcm => by rw [(hcell c hcm).2]; rfl) i hi']
+      have : cells.getD i (cells[i]) = cells[i] := by
+        rw [List.getD_eq_getElem?_getD, List.getElem?_eq_getElem hi', Option.getD_some]
+      rw [this, hc.2, Option.getD_some]
+
+/-! ## Part R: the fine simple contract exists whenever the coarse one is built -/
+
+theorem contractVectors_of {p : ContractP} {g : Grid} {prices : Prices} {minO maxO ecO : List (Option Rat)}
+    (h1 : makeVector p.maxCap g prices none true = .ok maxO) (h2 : makeVector p.minCap g prices none true = .ok minO)
+    (h3 : anyGt minO maxO = false) (h4 : makeVector p.extraCosts g prices (some 0) false = .ok ecO) :
+    contractVectors p g prices = .ok (minO, maxO, ecO) := by
+  unfold contractVectors
+  simp only [bind, Except.bind, h1, h2, h3, h4]
+  rfl
+
+theorem simpleCore_of {p : ContractP} {g : Grid} {prices : Prices} {price : List Rat}
+    {minO maxO ecO : List (Option Rat)} {ec minC maxC : List Rat} {n : String} {rest : List String}
+    (hv : contractVectors p g prices = .ok (minO, maxO, ecO)) (hn : p.nodes = n :: rest)
+    (he : allSome ecO = .ok ec) (hmi : allSome minO = .ok minC) (hma : allSome maxO = .ok maxC) :
+    simpleCore p g prices price
+      = .ok (if oneVariable ec minC maxC then scOne p g ⟨price, ec, minC, maxC, n⟩ else scTwo p g ⟨price, ec, minC, maxC, n⟩) := by
+  unfold simpleCore
+  simp only [bind, Except.bind, hv, hn, he, hmi, hma, pure, Except.pure]
+  split <;> simp [scOne, scTwo, hn]
+
+/-- a coarse vector (possibly with NaN) times `dt`, seen at the fine steps: entry of the owner times the weight -/
+def spreadW (owner : List Nat) (w : List Rat) (xs : List (Option Rat)) : List (Option Rat) :=
+  List.zipWith (fun i wk => (xs.getD i none).map (· * wk)) owner w
+
+section fineExists
+variable {ref : Grid} {cg : CoarseGrid}
+
+theorem getElem_getD {α : Type} (L : List α) (k : Nat) (hk : k < L.length) (d : α) : L[k] = L.getD k d := by
+  rw [List.getD_eq_getElem?_getD, List.getElem?_eq_getElem hk, Option.getD_some]
+
+theorem makeVector_conv_fine (hwf : cg.WellFormed ref.dt) {v : ParamValue} {prices : Prices} {xsC : List (Option Rat)}
+    (hC : makeVector v cg.grid prices none true = .ok xsC)
+    (hcap : baseVector v (minorGrid ref cg) prices none = (baseVector v cg.grid prices none).map (spreadO cg.owner)) :
+    makeVector v (minorGrid ref cg) prices none true = .ok (spreadW cg.owner (cg.weights ref.dt) xsC) := by
+  obtain ⟨bC, hbC, rfl⟩ := makeVector_ok hC
+  have hlC := baseVector_length hwf.ok hbC
+  unfold makeVector
+  rw [hcap, hbC]
+  simp only [Except.map, bind, Except.bind, if_true, pure, Except.pure]
+  congr 1
+  unfold timesDt spreadW spreadO
+  apply List.ext_getElem
+  · simp only [List.length_map, List.length_zip, List.length_zipWith]
+    rw [minorGrid_ok.2.1, minorGrid_T, weights_length, ← owner_length]
+  · intro k h1 h2
+    have hk : k < cg.owner.length := by
+      simp only [List.length_zipWith] at h2; omega
+    have hT := owner_lt hwf k hk
+    have hkw : k < (cg.weights ref.dt).length := by rw [weights_length, ← owner_length]; exact hk
+    have hkd : k < (minorGrid ref cg).dt.length := by rw [minorGrid_ok.2.1, minorGrid_T]; exact hk
+    simp only [List.getElem_map, List.getElem_zip, List.getElem_zipWith]
+    rw [getElem_getD cg.owner k hk 0, getElem_getD _ k hkw 0, getElem_getD _ k hkd 0, ← dtC_mul_weight hwf k hk]
+    have hz : ((bC.zip cg.grid.dt).map fun p => Option.map (fun x => x * p.2) p.1).getD (cg.owner.getD k 0) none
+        = (bC.getD (cg.owner.getD k 0) none).map (· * cg.grid.dt.getD (cg.owner.getD k 0) 0) := by
+      have h3 : cg.owner.getD k 0 < (bC.zip cg.grid.dt).length := by simp [hlC, hwf.ok.2.1]; exact hT
+      rw [getD_map' _ _ _ h3 (none, 0) none, List.getD_eq_getElem?_getD, List.getElem?_eq_getElem h3, Option.getD_some,
+        List.getElem_zip, getElem_getD bC _ (by rw [hlC]; exact hT) none, getElem_getD cg.grid.dt _ (by rw [hwf.ok.2.1]; exact hT) 0]
+    rw [hz]
+    cases bC.getD (cg.owner.getD k 0) none with
+    | none => rfl
+    | some b => simp only [Option.map_some]; congr 1; grind
+
+theorem makeVector_noconv_fine {v : ParamValue} {prices : Prices} {xsC : List (Option Rat)}
+    (hC : makeVector v cg.grid prices (some 0) false = .ok xsC)
+    (hcap : baseVector v (minorGrid ref cg) prices (some 0) = (baseVector v cg.grid prices (some 0)).map (spreadO cg.owner)) :
+    makeVector v (minorGrid ref cg) prices (some 0) false = .ok (spreadO cg.owner xsC) := by
+  obtain ⟨bC, hbC, hx⟩ := makeVector_ok hC
+  simp only [Bool.false_eq_true, if_false] at hx
+  subst hx
+  unfold makeVector
+  rw [hcap, hbC]
+  rfl
+
+theorem spreadW_length (xs : List (Option Rat)) :
+    (spreadW cg.owner (cg.weights ref.dt) xs).length = cg.owner.length := by
+  unfold spreadW
+  rw [List.length_zipWith, weights_length, ← owner_length]; omega
+
+theorem spreadW_getElem (xs : List (Option Rat)) (k : Nat) (hk : k < (spreadW cg.owner (cg.weights ref.dt) xs).length) :
+    (spreadW cg.owner (cg.weights ref.dt) xs)[k]
+      = (xs.getD (cg.owner.getD k 0) none).map (· * (cg.weights ref.dt).getD k 0) := by
+  have hk' : k < cg.owner.length := by rw [spreadW_length _] at hk; exact hk
+  have hkw : k < (cg.weights ref.dt).length := by rw [weights_length, ← owner_length]; exact hk'
+  simp only [spreadW, List.getElem_zipWith]
+  rw [getElem_getD cg.owner k hk' 0, getElem_getD _ k hkw 0]
+
+/-- the vector-wise `min_cap > max_cap` check has the same outcome -/
+theorem anyGt_spreadW (hwf : cg.WellFormed ref.dt) (a b : List (Option Rat)) (ha : a.length = cg.grid.T)
+    (hb : b.length = cg.grid.T) (h : anyGt a b = false) :
+    anyGt (spreadW cg.owner (cg.weights ref.dt) a) (spreadW cg.owner (cg.weights ref.dt) b) = false := by
+  unfold anyGt at h ⊢
+  rw [List.any_eq_false] at h ⊢
+  intro q hq
+  obtain ⟨k, hk, rfl⟩ := List.getElem_of_mem hq
+  have hk' : k < cg.owner.length := by
+    simp only [List.length_zip, spreadW_length _] at hk; omega
+  have hT := owner_lt hwf k hk'
+  have hw := weight_pos hwf k hk'
+  rw [List.getElem_zip, spreadW_getElem, spreadW_getElem]
+  have hmem : (a.getD (cg.owner.getD k 0) none, b.getD (cg.owner.getD k 0) none) ∈ a.zip b := by
+    have h3 : cg.owner.getD k 0 < (a.zip b).length := by simp [ha, hb]; exact hT
+    have := List.getElem_mem h3
+    rw [List.getElem_zip, getElem_getD a _ (by rw [ha]; exact hT) none, getElem_getD b _ (by rw [hb]; exact hT) none] at this
+    exact this
+  have hc := h _ hmem
+  cases hx : a.getD (cg.owner.getD k 0) none with
+  | none => simp
+  | some x =>
+    cases hy : b.getD (cg.owner.getD k 0) none with
+    | none => simp
+    | some y =>
+      rw [hx, hy] at hc
+      simp only [Option.map_some, decide_eq_true_eq] at hc ⊢
+      intro hlt
+      exact hc ((Rat.mul_lt_mul_right hw).mp hlt)
+
+theorem allSome_ok_of_all {xs : List (Option Rat)} (h : xs.all Option.isSome = true) :
+    allSome xs = .ok (xs.map fun o => o.getD 0) := by
+  unfold allSome
+  rw [if_pos h]; rfl
+
+theorem all_isSome_getD {xs : List (Option Rat)} (h : xs.all Option.isSome = true) (i : Nat) (hi : i < xs.length) :
+    (xs.getD i none).isSome = true := by
+  rw [List.all_eq_true] at h
+  exact h _ (getD_mem_of_lt xs i hi none)
+
+theorem allSome_spreadW (hwf : cg.WellFormed ref.dt) {xs : List (Option Rat)} {ys : List Rat} (hl : xs.length = cg.grid.T)
+    (h : allSome xs = .ok ys) : ∃ ys', allSome (spreadW cg.owner (cg.weights ref.dt) xs) = .ok ys' := by
+  refine ⟨_, allSome_ok_of_all ?_⟩
+  rw [List.all_eq_true]
+  intro o ho
+  obtain ⟨k, hk, rfl⟩ := List.getElem_of_mem ho
+  have hk' : k < cg.owner.length := by rw [spreadW_length _] at hk; exact hk
+  rw [spreadW_getElem]
+  have := all_isSome_getD (allSome_ok h).2 (cg.owner.getD k 0) (by rw [hl]; exact owner_lt hwf k hk')
+  cases hx : xs.getD (cg.owner.getD k 0) none with
+  | none => rw [hx] at this; cases this
+  | some x => rfl
+
+theorem allSome_spreadO (hwf : cg.WellFormed ref.dt) {xs : List (Option Rat)} {ys : List Rat} (hl : xs.length = cg.grid.T)
+    (h : allSome xs = .ok ys) : ∃ ys', allSome (spreadO cg.owner xs) = .ok ys' := by
+  refine ⟨_, allSome_ok_of_all ?_⟩
+  rw [List.all_eq_true]
+  intro o ho
+  unfold spreadO at ho
+  obtain ⟨i, hi, rfl⟩ := List.mem_map.mp ho
+  exact all_isSome_getD (allSome_ok h).2 i (by rw [hl]; exact owner_mem_lt hwf i hi)
+
+/-- **the fine problem exists whenever the coarse one is built** (under the hypothesis on the parameters) -/
+theorem fine_builds (hwf : cg.WellFormed ref.dt) {p : ContractP} {prices : Prices} {fullT : Nat} {Pc : AssetProblem}
+    (hcap : ConstInside p ref cg prices)
+    (hc : buildCoarseSimpleContract p cg ref.dt prices fullT = .ok Pc) :
+    ∃ Pf, fineSimpleContract p ref cg prices fullT = .ok Pf := by
+  obtain ⟨hill, price, a, hprice, ha, _⟩ := buildCoarseSimpleContract_ok hc
+  rw [fineSimpleContract_eq hill hprice]
+  obtain ⟨dC, minOC, maxOC, ecOC, _, hvC, heC, hmiC, hmaC, ⟨rest, hn⟩, _⟩ := simpleCore_ok ha
+  obtain ⟨c1, c2, c3, c4⟩ := contractVectors_ok hvC
+  have l1 := makeVector_length hwf.ok c1
+  have l2 := makeVector_length hwf.ok c2
+  have l4 := makeVector_length hwf.ok c4
+  have hvF := contractVectors_of (makeVector_conv_fine hwf c1 hcap.maxCap) (makeVector_conv_fine hwf c2 hcap.minCap)
+    (anyGt_spreadW hwf _ _ l2 l1 c3) (makeVector_noconv_fine c4 hcap.extra)
+  obtain ⟨ecF, heF⟩ := allSome_spreadO hwf l4 heC
+  obtain ⟨minF, hmiF⟩ := allSome_spreadW hwf l2 hmiC
+  obtain ⟨maxF, hmaF⟩ := allSome_spreadW hwf l1 hmaC
+  exact ⟨_, simpleCore_of hvF hn heF hmiF hmaF⟩
+
+end fineExists
+
 end EAO.CoarseBuild
